@@ -15,6 +15,7 @@ import (
 	"bytes"
 	"fmt"
 	"math/big"
+	"strings"
 
 	"github.com/cloudflare/circl/zz_verif/vlib"
 	"pgregory.net/rapid"
@@ -111,4 +112,60 @@ func hexInt(s string) *big.Int {
 		panic("bad hex " + s)
 	}
 	return v
+}
+
+// refConstructed tells whether the inputs of this generator kind are built by the reference as
+// canonical encodings of members (structured points, solved curve equations, torsion points). For
+// these kinds the reference decides validity, and a valid one must be accepted: it is a value the
+// library can hold and serialise, so the completeness half of the property applies to it.
+func refConstructed(kind string) bool {
+	switch kind {
+	case "special-x", "ref-point", "small-order", "low-order":
+		return true
+	}
+	return strings.HasPrefix(kind, "structured")
+}
+
+// mustAccept reports a completeness violation when a reference-constructed valid encoding is refused.
+func mustAccept(t vlib.TB, entry, sub, kind string, refOK, accepted bool, b []byte, stage string) bool {
+	if !refConstructed(kind) || !refOK {
+		return false
+	}
+	vlib.Class(sub, "reference-constructed valid encoding ("+kind+")")
+	if accepted {
+		return false
+	}
+	vlib.Report(t, "C09/completeness/"+entry+"/rejects-valid-encoding", fmt.Sprintf("kind=%s input=%x is the canonical encoding of a member (reference: %s) but is rejected", kind, b, stage))
+	return true
+}
+
+// drawStructured draws a field value with structure: 0, ±1, ±small, 2^k, 2^k−1, (p±1)/2, squares.
+func drawStructured(t *rapid.T, p *big.Int, label string) *big.Int {
+	var v *big.Int
+	switch rapid.IntRange(0, 7).Draw(t, label+".sk") {
+	case 0:
+		v = big.NewInt(int64(rapid.IntRange(0, 3).Draw(t, label+".v")))
+	case 1:
+		v = big.NewInt(int64(rapid.IntRange(0, 200).Draw(t, label+".v")))
+	case 2:
+		v = new(big.Int).Sub(p, big.NewInt(int64(rapid.IntRange(1, 200).Draw(t, label+".v"))))
+	case 3:
+		v = pow2(uint(rapid.IntRange(1, p.BitLen()-1).Draw(t, label+".e")))
+	case 4:
+		v = new(big.Int).Sub(pow2(uint(rapid.IntRange(1, p.BitLen()-1).Draw(t, label+".e"))), big.NewInt(1))
+	case 5:
+		v = new(big.Int).Rsh(p, 1)
+		if rapid.Bool().Draw(t, label+".up") {
+			v.Add(v, big.NewInt(1))
+		}
+	case 6:
+		r := int64(rapid.IntRange(2, 60).Draw(t, label+".r"))
+		v = big.NewInt(r * r)
+		if rapid.Bool().Draw(t, label+".neg") {
+			v.Sub(p, v)
+		}
+	default:
+		v = new(big.Int).Sub(p, big.NewInt(1))
+	}
+	return v.Mod(v, p)
 }
